@@ -91,6 +91,10 @@ class ExprMixin:
             if v.lit is not None:
                 return z3.BoolVal(len(v.lit) > 0)
             return z3.Function('str_nonempty', StrS, Bo)(v.t)
+        if isinstance(v, VBits):
+            # an int viewed as its set of one-bits is non-zero iff some bit is set
+            i = z3.Int(fresh_name('tb'))
+            return z3.Exists([i], z3.And(i >= 0, v.at(i)))
         raise Unsupported('truthiness of %r' % (v,))
 
     def as_int(self, v, node=None):
